@@ -17,3 +17,12 @@ for d in sorted(os.listdir(os.path.join(V, "seeded"))):
 print("| seed | change | suite passes | checks run | note |")
 print("|---|---|---|---|---|")
 print("\n".join(rows))
+
+import sys
+if "--update-design" in sys.argv:
+    import io, contextlib
+    p = os.path.join(V, "DESIGN.md")
+    s = open(p).read()
+    a, b = s.index("<!-- seedtable:begin -->"), s.index("<!-- seedtable:end -->")
+    table = "| seed | change | suite passes | checks run | note |\n|---|---|---|---|---|\n" + "\n".join(rows) + "\n"
+    open(p, "w").write(s[:a] + "<!-- seedtable:begin -->\n" + table + s[b:])
